@@ -31,6 +31,27 @@ def one(C, drv, L, np, n, rp_extra=None):
     o = drv.ask(f'n.weighted {enc_bits(float(w) for w in ws)} {enc_bits(float(v) for v in vals)}')
     if int(o) != fbits(float(out)) and not (bits2f(o) == float(out)):
         C.issue('weighted-mismatch', 'correspondence', rp, model=bits2f(o), real=float(out))
+    # components of every callable kind (function, callable object, bound method, partial): "for every list of
+    # single-argument functions"
+    import functools
+
+    class Comp_:
+        def __init__(self, v):
+            self.v = v
+
+        def __call__(self, z):
+            return self.v
+
+        def m(self, z):
+            return self.v
+    kinds = [lambda v: Comp_(v), lambda v: Comp_(v).m, lambda v: functools.partial((lambda a, z: a), v), lambda v: (lambda z: v)]
+    try:
+        fk = L['WeightedFunction'](functions=[kinds[(i + n) % len(kinds)](vals[i]) for i in range(n)], weights=list(ws))
+        outk = fk.pointer(x)
+        if not (float(outk) == float(ref)):
+            C.issue('not-the-weighted-sum', 'oracle', dict(rp, how='weighted-callable-kinds'), got=float(outk), reference=float(ref))
+    except Exception as ex:
+        C.issue('weighted-raised', 'oracle', dict(rp, how='weighted-callable-kinds'), error=type(ex).__name__ + ': ' + str(ex)[:80])
     # components that return (views of) their argument: the caller's array must come back untouched and every
     # component must see the original argument
     xv = np.array([[C.rng.uniform(-2, 2)] for _ in range(C.rng.randint(1, 3))])
